@@ -60,7 +60,7 @@ def documented_require(fn_path, what):
 
 # Documented preconditions on *arguments* of an entry point (assumed when it is analysed as an
 # entry; at call sites inside the crate they must follow from the context).
-def entry_assumptions(fn_path, names, args, st):
+def entry_assumptions(fn_path, names, args, st, sc=None, fr0=None):
     """names: parameter names; args: symbolic argument values."""
     d = dict(zip(names, args))
     out = []
@@ -84,6 +84,26 @@ def entry_assumptions(fn_path, names, args, st):
     if fn_path.endswith("strict::hypergraph::arrow::successors"):
         st.add_bound(d["frontier"].t, t_len(d["adjacency"].f["sources"].f["table"].t))
         out.append("frontier: node indices")
-    if fn_path.endswith("strict::graph::filter") or fn_path.endswith("strict::graph::filter_by_dense"):
-        pass
+    if fn_path.endswith("strict::eval::eval"):
+        st.add_eq(t_len(d["s"].t) - t_len(d["f"].f["s"].f["table"].t))
+        out.append("eval(f, s, apply): one input value per source position (doc: 'specified input values s')")
+    if fn_path.endswith("optic::Optic::<F, R, K, O1, A1, O2, A2>::adapt"):
+        # adapt(c, a, b): c is an optic image, i.e. c : map_object(a) -> map_object(b)
+        I = sc.I
+        mo = None
+        for p, f in I.facts.fns.items():
+            if p.endswith("Functor<K, O1, A1, O2, A2>>::map_object") and "optic::Optic<" in p:
+                mo = f
+        n0 = len(I.obligations)
+        c = d["c"]
+        w = c.f["h"].f["w"].f["0"].t
+        for leg, obj in (("s", d["a"]), ("t", d["b"])):
+            outs = I.call_fn(mo, [d["self"], obj], st, fr0, {"sp": "entry-assumption", "k": "entry"})
+            for (s2, v, cc) in outs[:1]:
+                ty = v.f["values"].f["0"].t
+                legt = ("gather", w, c.f[leg].f["table"].t)
+                st.teq = st.teq + ((legt, normalise(st, ty)),)
+                st.add_eq(t_len(legt) - t_len(ty))
+        del I.obligations[n0:]
+        out.append("c : Optic::map_object(a) -> Optic::map_object(b) (c is an optic image of a diagram a -> b)")
     return out
